@@ -77,6 +77,12 @@ pub fn check(a: &Analysis, _aux: &mut Aux, t: &mut Tally) -> Vec<Violation> {
                         t.any("echo-request-shorter-than-id-seq");
                         continue;
                     }
+                    if q.rest_len - 4 > 1472 {
+                        // the statement's echo domain ends at 1472 data bytes (what fits an
+                        // unfragmented packet of 1500): whether and how longer ones are echoed is open
+                        t.any("echo-data-above-1472");
+                        continue;
+                    }
                     t.judged(Verdict::Reply, format!("icmp|echo|{}|{}", size_class(q.rest_len - 4), (q.rest_len % 2)));
                     echo_reply(s, q, 0, false, &mut bad);
                 } else {
@@ -96,6 +102,12 @@ pub fn check(a: &Analysis, _aux: &mut Aux, t: &mut Tally) -> Vec<Violation> {
                     }
                     if q.rest_len < 4 {
                         t.any("echo-request-shorter-than-id-seq");
+                        continue;
+                    }
+                    if q.rest_len - 4 > 1472 {
+                        // the statement's echo domain ends at 1472 data bytes (what fits an
+                        // unfragmented packet of 1500): whether and how longer ones are echoed is open
+                        t.any("echo-data-above-1472");
                         continue;
                     }
                     t.judged(Verdict::Reply, format!("icmp6|echo|{}|{}", size_class(q.rest_len - 4), (q.rest_len % 2)));
